@@ -829,6 +829,7 @@ Plan gen_hostile(const std::string &profile, uint64_t seed, const JV &opts) {
 		if (r.chance(0.4)) o.a.set("rdcap", JV::num((double)(1 + r.below(r.chance(0.5) ? 5 : 80))));
 		if (kd != 0) o.a.set("noexpect", JV::boolean(true));
 		if (kd == 2) o.a.set("nohs", JV::boolean(true));
+		if (r.chance(0.06)) { JV cf = JV::obj(); cf.set("n", JV::num((double)(1 + r.below(8)))); static const int er[] = {105, 12, 22, 92, 9}; cf.set("errno", JV::num(er[r.below(4)])); o.a.set("cfgfail", cf); }   // one of the calls that configure the accepted socket fails
 		o.dt = g.pick_dt(); o.hold = r.chance(g.p_hold);
 		g.p.ops.push_back(o); g.cl.push_back(gc);
 	}
@@ -1587,7 +1588,18 @@ Plan generate_plan(const std::string &profile_in, uint64_t seed, const JV &opts)
 	std::string profile = profile_in; bool af = false;
 	{ size_t pos = profile.find("+af"); if (pos != std::string::npos) { profile = profile.substr(0, pos); af = true; } }
 	Plan p = generate_plan_inner(profile, seed, opts);
-	if (af && p.hdr.gets("mode", "exact") == "exact") {
+	if (af && profile == "c19") {
+		// the echo endpoint under allocation failures: what is echoed is not predictable any more, memory safety, reclamation and survival are
+		Rng r(mix64(seed, 0xA110CF));
+		int nf = r.chance(0.6) ? 1 : 2 + (int)r.below(3);
+		uint64_t span = 40 + 30 * (uint64_t)p.ops.size();
+		JV rel = JV::arr(); for (int i = 0; i < nf; i++) rel.push(JV::num((double)(1 + r.below(span))));
+		p.hdr.put("allocfail_rel", rel);
+		std::string pr = opts.gets("prop", "C19");
+		p.hdr.put("memprop", JV::str(pr)); p.hdr.put("baseprop", JV::str(pr)); p.hdr.put("canary_prop", JV::str(pr));
+		p.profile = profile_in;
+	}
+	if (af && profile != "c19" && p.hdr.gets("mode", "exact") == "exact") {
 		Rng r(mix64(seed, 0xA110CF));
 		int nf = r.chance(0.7) ? 1 : 2 + (int)r.below(3);
 		uint64_t span = 60 + 25 * (uint64_t)p.ops.size();
